@@ -533,7 +533,13 @@ pub fn gen_history(r: &mut Rng, check: &str, seed: u64, hc: &HistoryCfg) -> Scen
             }
         } else if roll < 75 {
             let opts = if r.chance(1, 3) {
-                if hc.small_blocks { crate::genr::draw_opts_small_blocks(r) } else { draw_opts(r) }
+                let mut o = if hc.small_blocks { crate::genr::draw_opts_small_blocks(r) } else { draw_opts(r) };
+                if cfg.big_twins && o.max_block_size < 4096 {
+                    // megabyte files in 7-byte blocks are legal but cost hundreds of thousands
+                    // of operations per backup; keep such histories affordable
+                    o.max_block_size = base_opts.max_block_size;
+                }
+                o
             } else {
                 base_opts.clone()
             };
